@@ -303,7 +303,7 @@ class Distribution(NominalValueMixin):
 
     def __pow__(self, other):
         p = self.to_pbox()
-        return p.pow(other, dependency="f")
+        return p.pow(other, dependency=get_current_dependency())
 
     def __rpow__(self, other):
         if not hasattr(other, "__iter__"):
